@@ -1017,3 +1017,12 @@ Proof.
   intros (Hnd & _) Hi Hc. destruct (gc_restarts _ _ _ Hnd Hi Hc) as (H1 & H2 & H3). split; [exact H1|]. split; [exact H2|].
   intros z Hz. apply H3. apply strict_prefix_spec. split; [reflexivity|congruence].
 Qed.
+
+(* ------------------------------------------------------------------ small facts used by props/ *)
+Lemma no_recover T d : no_service_recovers T = true -> recovers T d = false.
+Proof.
+  intros H. unfold recovers. destruct d as [|x [|? ?]]; try reflexivity. unfold svc. destruct (List.find (fun s => sv_id s =? x) (all_services T)) as [sv|] eqn:E; [|reflexivity].
+  apply find_some in E as [Hin _]. unfold no_service_recovers in H. rewrite forallb_forall in H. specialize (H sv Hin). apply negb_true_iff in H. exact H.
+Qed.
+
+Definition sid (T : ntree) (nm : string) : Z := match svc_named T nm with Some s => sv_id s | None => 0 end.
